@@ -10,6 +10,8 @@ for c in gv plain oaa gv-oaa; do
   case "$c" in plain) F="";; gv) F="gvariant";; oaa) F="option-as-array";; gv-oaa) F="gvariant,option-as-array";; esac
   ( cd "$ROOT/engines/zv" && CARGO_TARGET_DIR="$ROOT/.target/zv-$c" cargo build --release --offline --features "$F" ) || fail=1
 done
+# C35: pre-compile the third-party dependency seed used by the feature-combination check
+VERIF_ROOT="$ROOT" VERIF_FEAT_PREPARE_ONLY=1 python3 "$ROOT/engines/feat/run.py" C35 >/dev/null 2>&1 || echo "setup: C35 seed pre-build failed" >&2
 # Every check rebuilds what it needs itself (and reports a build failure as exit 2), so a
 # failed pre-build is reported here but does not stop the checks from being attempted.
 [ $fail -eq 0 ] || echo "setup: some pre-builds failed (see above); checks will rebuild on demand" >&2
